@@ -11,6 +11,7 @@ import (
 	"path/filepath"
 	"regexp"
 	"strings"
+	"sync"
 	"time"
 
 	"gosymx/interp"
@@ -108,88 +109,94 @@ func (r *replayer) run(jobs []*replayJob) error {
 		list.WriteString(j.path + "\n")
 		byPath[j.path] = j
 	}
-	lf := filepath.Join(r.dir, "list.txt")
-	os.WriteFile(lf, []byte(list.String()), 0o644)
-	ctx, cancel := context.WithTimeout(context.Background(), 15*time.Minute)
-	defer cancel()
-	args := []string{"test", "-tags", "verif", "-vet=off", "-count=1", "-timeout", "14m", "-run", "^TestVerifReplay$", "-v", "-overlay", of}
+	_ = list
+	// one test binary, one process per replay: package-level state of the
+	// library (and of a changed library) starts afresh for every replay, as it
+	// does for every path in the engine
+	bin := filepath.Join(r.dir, "replay.test")
+	bctx, bcancel := context.WithTimeout(context.Background(), 10*time.Minute)
+	defer bcancel()
+	bargs := []string{"test", "-c", "-o", bin, "-tags", "verif", "-vet=off", "-overlay", of}
 	if r.prop == "C11" {
-		args = append(args, "-race")
+		bargs = append(bargs, "-race")
 	}
-	args = append(args, ".")
-	cmd := exec.CommandContext(ctx, "go", args...)
-	cmd.Dir = r.repo
-	cmd.Env = append(goEnv(), "VERIF_REPLAY_LIST="+lf)
-	out, err := cmd.CombinedOutput()
-	sc := bufio.NewScanner(bytes.NewReader(out))
-	sc.Buffer(make([]byte, 1<<20), 1<<24)
-	n := 0
-	var cur *replayJob
-	raced := map[*replayJob]bool{}
-	for sc.Scan() {
-		ln := sc.Text()
-		if strings.HasPrefix(ln, "VREPLAY-BEGIN ") {
-			cur = byPath[strings.TrimSpace(strings.TrimPrefix(ln, "VREPLAY-BEGIN "))]
-			continue
-		}
-		if strings.Contains(ln, "WARNING: DATA RACE") && cur != nil {
-			raced[cur] = true
-			continue
-		}
-		if !strings.HasPrefix(ln, "VREPLAY ") {
-			continue
-		}
-		f := strings.SplitN(ln, " ", 4)
-		if len(f) < 3 {
-			continue
-		}
-		if j := byPath[f[1]]; j != nil {
-			j.outcome = f[2]
-			if len(f) == 4 {
-				j.detail = f[3]
-				if k := strings.Index(j.detail, " ||OBS|| "); k >= 0 {
-					json.Unmarshal([]byte(j.detail[k+9:]), &j.gotObs)
-					j.detail = j.detail[:k]
-				}
-			}
-			n++
-		}
-	}
-	for j := range raced {
-		if j.outcome == "ok" {
-			j.outcome = "race"
-			j.detail = "data race reported by the race detector"
-		}
-	}
-	if n != len(jobs) {
-		// a fatal error (stack overflow, OOM) kills the test binary: the job
-		// in flight is the first one without an outcome
+	bargs = append(bargs, ".")
+	bcmd := exec.CommandContext(bctx, "go", bargs...)
+	bcmd.Dir = r.repo
+	bcmd.Env = goEnv()
+	if out, err := bcmd.CombinedOutput(); err != nil {
 		tail := string(out)
 		if len(tail) > 3000 {
 			tail = tail[len(tail)-3000:]
 		}
-		if strings.Contains(string(out), "fatal error:") || strings.Contains(string(out), "goroutine stack exceeds") {
-			for _, j := range jobs {
-				if j.outcome == "" {
+		return fmt.Errorf("building the replay binary failed (%v):\n%s", err, tail)
+	}
+	defer os.Remove(bin)
+	sem := make(chan struct{}, 8)
+	var wg sync.WaitGroup
+	for i, j := range jobs {
+		wg.Add(1)
+		sem <- struct{}{}
+		go func(i int, j *replayJob) {
+			defer func() { <-sem; wg.Done() }()
+			lf := filepath.Join(r.dir, fmt.Sprintf("list_%d.txt", i))
+			os.WriteFile(lf, []byte(j.path+"\n"), 0o644)
+			defer os.Remove(lf)
+			ctx, cancel := context.WithTimeout(context.Background(), 5*time.Minute)
+			defer cancel()
+			cmd := exec.CommandContext(ctx, bin, "-test.run", "^TestVerifReplay$", "-test.v", "-test.timeout", "4m")
+			cmd.Dir = r.repo
+			cmd.Env = append(goEnv(), "VERIF_REPLAY_LIST="+lf)
+			out, _ := cmd.CombinedOutput()
+			sc := bufio.NewScanner(bytes.NewReader(out))
+			sc.Buffer(make([]byte, 1<<20), 1<<24)
+			raced := false
+			for sc.Scan() {
+				ln := sc.Text()
+				if strings.Contains(ln, "WARNING: DATA RACE") {
+					raced = true
+					continue
+				}
+				if !strings.HasPrefix(ln, "VREPLAY ") {
+					continue
+				}
+				f := strings.SplitN(ln, " ", 4)
+				if len(f) < 3 || f[1] != j.path {
+					continue
+				}
+				j.outcome = f[2]
+				if len(f) == 4 {
+					j.detail = f[3]
+					if k := strings.Index(j.detail, " ||OBS|| "); k >= 0 {
+						json.Unmarshal([]byte(j.detail[k+9:]), &j.gotObs)
+						j.detail = j.detail[:k]
+					}
+				}
+			}
+			if raced && j.outcome == "ok" {
+				j.outcome = "race"
+				j.detail = "data race reported by the race detector"
+			}
+			if j.outcome == "" {
+				// a fatal error (stack overflow, OOM) kills the test binary
+				if strings.Contains(string(out), "fatal error:") || strings.Contains(string(out), "goroutine stack exceeds") {
 					j.outcome = "panic"
 					j.detail = "fatal error in test binary: " + firstFatal(string(out))
-					break
+				} else if ctx.Err() != nil {
+					j.outcome = "hang"
+					j.detail = "replay process killed after 5 minutes"
+				} else {
+					tail := string(out)
+					if len(tail) > 1500 {
+						tail = tail[len(tail)-1500:]
+					}
+					j.outcome = "error"
+					j.detail = "no result line: " + strings.ReplaceAll(tail, "\n", "\\n")
 				}
 			}
-			// re-run the rest
-			var rest []*replayJob
-			for _, j := range jobs {
-				if j.outcome == "" {
-					rest = append(rest, j)
-				}
-			}
-			if len(rest) > 0 && len(rest) < len(jobs) {
-				return r.run(rest)
-			}
-			return nil
-		}
-		return fmt.Errorf("replay produced %d of %d results (err=%v):\n%s", n, len(jobs), err, tail)
+		}(i, j)
 	}
+	wg.Wait()
 	return nil
 }
 
